@@ -89,7 +89,7 @@ ASSUME = [
 
 TIERS = {
     'quick':    dict(n_random=6, steps=2500, seeds=2, flavours=['gcc', 'clang']),
-    'thorough': dict(n_random=40, steps=20000, seeds=4, flavours=['gcc', 'clang', 'gcc17', 'clang-dev', 'clang-asan']),
+    'thorough': dict(n_random=40, steps=10000, seeds=3, flavours=['gcc', 'clang', 'gcc17', 'clang-dev', 'clang-asan']),
 }
 
 def knob_args(profile):
